@@ -109,6 +109,23 @@ def run_cal(ctx, cid, n_iter):
     month_ends = [s + dim - 1 for (s, y, m, dim) in rng.sample(C.seq, min(len(C.seq), n_iter // 3))]
     starts = [lo, lo + 1, hi, hi - 1] + month_ends + [rng.randint(lo, hi) for _ in range(n_iter)]
     ylen = [354, 355, 365, 366, 383, 384, 385, 353]
+    # year-boundary starts with amounts around every year length (day-of-year fast paths, short years)
+    ystarts = sorted({s for (s, y, m, dim) in C.seq if gen.date_of(s, cal).day_of_year == 1})
+    for s0 in rng.sample(ystarts, min(len(ystarts), 150 if ctx.tier == "quick" else 1500)):
+        for a in (s0, s0 - 1):
+            if not lo <= a <= hi: continue
+            x = gen.date_of(a, cal)
+            for n in [sg * (L + dl) for L in ylen for dl in (-1, 0, 1) for sg in (1, -1)]:
+                t = a + n
+                if not lo <= t <= hi: continue
+                ctx.ev(); ctx.count("plus_days"); ctx.key((cid, "year-boundary-days", n))
+                case = {"kind": "plus_days", "cal": cid, "d": a, "n": n}
+                try:
+                    r = x.plus_days(n)
+                except Exception as e:  # noqa: BLE001
+                    ctx.exc(e); ctx.V(f"C09:plus_days-raised-in-range:{cid}", f"{cid} {gen.ymd(x)} (day {a}).plus_days({n}) raised {e!r}; target day {t} is in range", case, repr(e)); continue
+                if gen.day_of(r) != t or not C.valid(r):
+                    ctx.V(f"C09:plus_days:{cid}", f"{cid} {gen.ymd(x)} (day {a}).plus_days({n}) = {gen.ymd(r)} (day {gen.day_of(r)}), expected day {t}", case, gen.day_of(r), t)
     for a in starts:
         x = gen.date_of(a, cal)
         ymd = gen.ymd(x)
